@@ -144,43 +144,47 @@ Qed.
 
 (* ---- shape, for any interpolation term with the stated elementary facts *)
 
-Hypothesis interp_up : forall off dur delta,
+(* ok dur delta: the (duration, target difference) pairs for which the facts are known *)
+Variable ok : Z -> Z -> Prop.
+Hypothesis interp_up : forall off dur delta, ok dur delta ->
   0 <= off <= dur -> 0 < dur -> 0 <= delta -> 0 <= interp off dur delta <= delta.
-Hypothesis interp_down : forall off dur delta,
+Hypothesis interp_down : forall off dur delta, ok dur delta ->
   0 <= off <= dur -> 0 < dur -> delta <= 0 -> delta <= interp off dur delta <= 0.
-Hypothesis interp_mono_up : forall off1 off2 dur delta,
+Hypothesis interp_mono_up : forall off1 off2 dur delta, ok dur delta ->
   0 <= off1 <= off2 -> off2 <= dur -> 0 < dur -> 0 <= delta ->
   interp off1 dur delta <= interp off2 dur delta.
-Hypothesis interp_mono_down : forall off1 off2 dur delta,
+Hypothesis interp_mono_down : forall off1 off2 dur delta, ok dur delta ->
   0 <= off1 <= off2 -> off2 <= dur -> 0 < dur -> delta <= 0 ->
   interp off2 dur delta <= interp off1 dur delta.
 
 Lemma between_targets : forall l e rem st s r,
   0 <= e -> advance (chain 0 l) 0 e = (rem, st) -> rem = s :: r ->
+  ok (s_dur s) (s_to s - s_from s) ->
   Z.min (s_from s) (s_to s) <= staged_ref interp l e <= Z.max (s_from s) (s_to s).
 Proof.
-  intros l e rem st s r He Ha ->.
+  intros l e rem st s r He Ha -> Hok.
   unfold staged_ref. rewrite Ha. cbn [stage_rate].
   destruct (advance_selected _ _ _ _ _ _ He Ha) as [H1 H2].
   destruct (Z.le_ge_cases 0 (s_to s - s_from s)) as [Hd|Hd].
-  - pose proof (interp_up (e - st) (s_dur s) _ ltac:(lia) ltac:(lia) Hd). lia.
-  - pose proof (interp_down (e - st) (s_dur s) _ ltac:(lia) ltac:(lia) Hd). lia.
+  - pose proof (interp_up (e - st) (s_dur s) _ Hok ltac:(lia) ltac:(lia) Hd). lia.
+  - pose proof (interp_down (e - st) (s_dur s) _ Hok ltac:(lia) ltac:(lia) Hd). lia.
 Qed.
 
 Lemma monotone_in_stage : forall l e1 e2 rem st s r,
   0 <= e1 <= e2 ->
   advance (chain 0 l) 0 e1 = (rem, st) -> advance (chain 0 l) 0 e2 = (rem, st) -> rem = s :: r ->
+  ok (s_dur s) (s_to s - s_from s) ->
   (s_from s <= s_to s -> staged_ref interp l e1 <= staged_ref interp l e2) /\
   (s_to s <= s_from s -> staged_ref interp l e2 <= staged_ref interp l e1).
 Proof.
-  intros l e1 e2 rem st s r He H1 H2 ->.
+  intros l e1 e2 rem st s r He H1 H2 -> Hok.
   unfold staged_ref. rewrite H1, H2. cbn [stage_rate].
   destruct (advance_selected _ 0 e1 _ _ _ ltac:(lia) H1) as [A1 A2].
   destruct (advance_selected _ 0 e2 _ _ _ ltac:(lia) H2) as [B1 B2].
   split; intros Hd.
-  - pose proof (interp_mono_up (e1 - st) (e2 - st) (s_dur s) (s_to s - s_from s)
+  - pose proof (interp_mono_up (e1 - st) (e2 - st) (s_dur s) (s_to s - s_from s) Hok
                   ltac:(lia) ltac:(lia) ltac:(lia) ltac:(lia)). lia.
-  - pose proof (interp_mono_down (e1 - st) (e2 - st) (s_dur s) (s_to s - s_from s)
+  - pose proof (interp_mono_down (e1 - st) (e2 - st) (s_dur s) (s_to s - s_from s) Hok
                   ltac:(lia) ltac:(lia) ltac:(lia) ltac:(lia)). lia.
 Qed.
 
@@ -215,26 +219,26 @@ Proof.
 Qed.
 
 Lemma ramp_between : forall from to dur e,
-  0 < dur -> 0 <= e <= dur ->
+  0 < dur -> 0 <= e <= dur -> ok dur (to - from) ->
   Z.min from to <= ramp_ref interp from to dur e <= Z.max from to.
 Proof.
-  intros from to dur e Hd He. unfold ramp_ref.
+  intros from to dur e Hd He Hok. unfold ramp_ref.
   replace (dur <? e) with false by lia.
   destruct (Z.le_ge_cases 0 (to - from)) as [H|H].
-  - pose proof (interp_up e dur _ ltac:(lia) Hd H). lia.
-  - pose proof (interp_down e dur _ ltac:(lia) Hd H). lia.
+  - pose proof (interp_up e dur _ Hok ltac:(lia) Hd H). lia.
+  - pose proof (interp_down e dur _ Hok ltac:(lia) Hd H). lia.
 Qed.
 
 Lemma ramp_monotone : forall from to dur e1 e2,
-  0 < dur -> 0 <= e1 <= e2 -> e2 <= dur ->
+  0 < dur -> 0 <= e1 <= e2 -> e2 <= dur -> ok dur (to - from) ->
   (from <= to -> ramp_ref interp from to dur e1 <= ramp_ref interp from to dur e2) /\
   (to <= from -> ramp_ref interp from to dur e2 <= ramp_ref interp from to dur e1).
 Proof.
-  intros from to dur e1 e2 Hd He H2. unfold ramp_ref.
+  intros from to dur e1 e2 Hd He H2 Hok. unfold ramp_ref.
   replace (dur <? e1) with false by lia. replace (dur <? e2) with false by lia.
   split; intros H.
-  - pose proof (interp_mono_up e1 e2 dur (to - from) ltac:(lia) ltac:(lia) Hd ltac:(lia)). lia.
-  - pose proof (interp_mono_down e1 e2 dur (to - from) ltac:(lia) ltac:(lia) Hd ltac:(lia)). lia.
+  - pose proof (interp_mono_up e1 e2 dur (to - from) Hok ltac:(lia) ltac:(lia) Hd ltac:(lia)). lia.
+  - pose proof (interp_mono_down e1 e2 dur (to - from) Hok ltac:(lia) ltac:(lia) Hd ltac:(lia)). lia.
 Qed.
 
 Lemma ramp_zero_after : forall from to dur e, dur < e -> ramp_ref interp from to dur e = 0.
